@@ -479,7 +479,7 @@ func main() {
 	e.noIter = *withClose
 	if *fault != "" {
 		f := strings.Split(*fault, ":")
-		fs := &faultState{on: true}
+		fs := &faultState{}
 		for k := vt.OpCreate; k <= vt.OpGetMeta; k++ {
 			if k.String() == f[0] {
 				fs.kind = k
@@ -496,7 +496,7 @@ func main() {
 			if op.Kind == vt.OpSetMeta {
 				ft = storage.TypeManifest
 			}
-			if fs.healed || op.Kind != fs.kind || ft != fs.ft {
+			if !fs.on || fs.healed || op.Kind != fs.kind || ft != fs.ft {
 				return nil, -1
 			}
 			fs.seen++
@@ -516,6 +516,12 @@ func main() {
 		os.Exit(2)
 	}
 	e.db = db
+	if e.fault != nil {
+		// fault positions count from here: a fault inside Open is the business of the sequential fault runs (C08/C09 part a)
+		e.fault.mu.Lock()
+		e.fault.on = true
+		e.fault.mu.Unlock()
+	}
 	start := time.Now()
 	var wg sync.WaitGroup
 	c := 0
